@@ -928,7 +928,7 @@ def main_loop_with(body, call_rx, depth=3):
     return best
 
 
-def classify_exits(body, loop, sink_blocks, queue_names, queue_locals=None, batch_locals=None, result_locals=None):
+def classify_exits(body, loop, sink_blocks, queue_names, queue_locals=None, batch_locals=None, result_locals=None, keyed=False):
     """for each exit edge of `loop` from which a sink block is reachable, say why the loop may stop:
     returns [(kind, cond, line)], kind in
       queue-empty | batch-empty | budget | stagnation | other
@@ -962,7 +962,7 @@ def classify_exits(body, loop, sink_blocks, queue_names, queue_locals=None, batc
                 inner = c.expr.mentions_call(r'::is_empty$')
                 arg = inner.b[0] if inner is not None and inner.b else None
                 names = [x.b for x in arg.walk() if x.k in ('let', 'local') and x.b] if arg is not None else []
-                locs = expr_locals(arg) if arg is not None else set()
+                locs = (expr_keys(body, arg) if keyed else expr_locals(arg)) if arg is not None else set()
                 if (queue_locals is not None and locs & queue_locals) or (queue_locals is None and any(nm in queue_names for nm in names)):
                     kind = 'queue-empty'
                 elif (batch_locals is not None and locs & batch_locals) or (batch_locals is None and any('batch' in nm for nm in names)):
@@ -972,7 +972,8 @@ def classify_exits(body, loop, sink_blocks, queue_names, queue_locals=None, batc
                     sl = set()
                     for l in expr_locals(c.expr):
                         sl |= body.backward_locals([l], limit=2500)
-                    if sl & result_locals:
+                    rl = set(x[0] if isinstance(x, tuple) else x for x in result_locals)
+                    if sl & rl or (keyed and any(_rep(body, l) in rl for l in sl)):
                         kind = 'stagnation'
                 elif 'snapshot' in _names(c.expr):
                     kind = 'stagnation'
@@ -1295,3 +1296,87 @@ def wal_roles(prog, file='src/persistent_state.rs', entry_adt='persistent_state:
         raise F.AnchorMissing('WAL MAC routine / verify routine (a fn over WalEntry feeding Mac::update, and a bool fn comparing its output with entry.hmac)')
     memo[key] = (mac, ver)
     return mac, ver
+
+
+# ------------------------------------------------------------------------------------------------
+# container identity when containers live in fields of a small struct local (`frontier.queue`, `frontier.ids`)
+# ------------------------------------------------------------------------------------------------
+
+def _rep(body, l):
+    ac = alias_classes(body)
+    return min(ac.get(l, {l}))
+
+
+def operand_key(body, op):
+    """identity of the container an operand denotes: the alias-class representative of its root local, plus the first field
+    name when the operand goes through a field of a struct local"""
+    if not (isinstance(op, dict) and 'p' in op):
+        return None
+    return expr_key(body, body.expr(op))
+
+
+def expr_key(body, e):
+    st = e
+    fld = None
+    last_let = None
+    for _ in range(30):
+        if st.k == 'let':
+            last_let = (st.a, fld)
+            st = st.c
+        elif st.k in ('ref', 'deref'):
+            st = st.a
+        elif st.k == 'call' and F.TRANSPARENT.match(st.a) and st.b:
+            st = st.b[0]
+        elif st.k == 'field':
+            fld = st.b.rsplit('::', 1)[-1] if isinstance(st.b, str) else str(st.b)
+            last_let = None
+            st = st.a
+        elif st.k == 'cast' and str(st.a).startswith('PointerCoercion'):
+            st = st.b
+        else:
+            break
+    if st.k in ('local', 'param') and isinstance(st.a, int) and st.a < len(body.locals):
+        return (_rep(body, st.a), fld)
+    if last_let is not None and isinstance(last_let[0], int) and last_let[0] < len(body.locals):
+        # a named local that was made by a call / aggregate (`let queue = VecDeque::new()`): the local is the identity
+        return (_rep(body, last_let[0]), last_let[1])
+    return None
+
+
+def expr_keys(body, e):
+    """all container identities an expression mentions"""
+    out = set()
+
+    def rec(x, fld):
+        k = x.k
+        if k == 'let':
+            # a named local: it is an identity itself, and so is what it was made from
+            if isinstance(x.a, int) and x.a < len(body.locals):
+                out.add((_rep(body, x.a), fld))
+            rec(x.c, fld)
+        elif k in ('local', 'param'):
+            if isinstance(x.a, int) and x.a < len(body.locals):
+                out.add((_rep(body, x.a), fld))
+        elif k in ('ref', 'deref'):
+            rec(x.a, fld)
+        elif k == 'field':
+            rec(x.a, x.b.rsplit('::', 1)[-1] if isinstance(x.b, str) else str(x.b))
+        elif k == 'call':
+            for a in x.b:
+                rec(a, fld if F.TRANSPARENT.match(x.a) else None)
+        elif k in ('index', 'downcast', 'disc', 'try', 'await'):
+            rec(x.a, None)
+        elif k == 'bin':
+            rec(x.b, None)
+            rec(x.c, None)
+        elif k in ('un', 'cast'):
+            rec(x.b, None)
+        elif k == 'agg':
+            for a in x.b:
+                rec(a, None)
+    rec(e, None)
+    return out
+
+
+def touches_keys(body, e, keys):
+    return bool(expr_keys(body, e) & keys)
